@@ -20,7 +20,7 @@ LEVEL = "exploration"
 BATCH = 4
 TIMEOUT = 120
 USES_LAB = False
-REQUIRED_OBS = ["names_checked", "adjacent_pairs_checked", "garbage_names_checked", "cfg_default", "cfg_upper_replace", "cfg_custom_symbols"]
+REQUIRED_OBS = ["names_checked", "adjacent_pairs_checked", "garbage_names_checked", "cfg_default", "cfg_upper_replace", "cfg_custom_symbols", "cfg_upper_G_prefix"]
 RULE = ("names rendered from compositions: all ordered pairs of adjacent symbols of the active list with counts 1/2/10+, random "
         "2-4 element formulas, ortho/para/meta and c-/l-/* labels, surface prefixes with group digits, grain symbols with "
         "groups, charges -3..+4, under (a) the default lists, (b) the upper-case list with replacement of the bundled cloud "
@@ -42,6 +42,10 @@ CONFIGS = {
     "custom_symbols": dict(elements=["e", "H", "D", "He", "C", "N", "O", "Si", "S", "Fe"], pseudo=["CR", "o", "p"], repl={},
                            kwargs=dict(surface_prefix="G", grain_symbol="DUST"), prefix="G", grain="DUST",
                            syms=["H", "D", "He", "C", "N", "O", "Si", "S", "Fe"], labels=["o", "p"], pre_labels=[], post_labels=[]),
+    # upper-case list + surface prefix 'G' (the Leeds convention) + 'M' as a third-body pseudo element: the prefix letter also
+    # occurs inside element symbols (MG), so symbol-vs-prefix precedence matters
+    "upper_G_prefix": dict(elements=UPPER, pseudo=UPPER_PSEUDO + ["M"], repl=UPPER_REPL, kwargs=dict(surface_prefix="G"), prefix="G",
+                           grain="GRAIN", syms=[e for e in UPPER if e != "E"], labels=[], pre_labels=[], post_labels=[]),
 }
 
 
